@@ -1,6 +1,7 @@
 import AiutiVerif.Core.Wire
 import AiutiVerif.Split.Drive
 import AiutiVerif.Parse.Drive
+import AiutiVerif.Gather.Drive
 /-!
 Model driver: reads one case per line on stdin (`<component> key=value …`), prints the
 model's answer on one line.  Imports `Model`/`Drive` files only (never a proof file).
@@ -14,6 +15,7 @@ def answer (line : String) : String :=
     let fs := Wire.fields line
     if comp == "split" then Split.drive fs
     else if comp == "parse" then Parse.drive fs
+    else if comp == "gather" then Gather.drive fs
     else if comp == "ping" then "pong"
     else "bad-component"
   | [] => "bad-component"
